@@ -628,7 +628,7 @@ func check(c *pbt.Ctx, cs Case) {
 
 var Prop = pbt.Register(pbt.Prop[Case]{
 	Name: "TestThriftDescriptors",
-	Rule: "generated three-file IDLs (main includes inc includes root; defaults naming literals, enum values and constants of the own or an included file incl. constant chains and constant names repeated across files; namespaces, typedefs of scalars/containers/structs and typedef chains across files, enums with negative and large values, unions, exceptions, self- and mutually recursive structs, simple names declared in both files, a low-dispersion struct that forces the hash map, names whose DJB hash is 0, ids up to 32767, aliases, a struct with api.body fields that only occurs as the element of a list argument and result, request / response structs with base.Base / base.BaseResp fields of every requiredness (under EnableThriftBase their requires bit is cleared, Required() stays as declared), requiredness, scalar and enum defaults, services with same-file and cross-file inheritance, void/oneway/throws) x parse options (ParseServiceMode, ServiceName, MapFieldWay, ParseEnumAsInt64, SetOptionalBitmap, UseDefaultValue, ParseFunctionMode, ApiBodyFastPath, EnableThriftBase); oracle = the generator's own model of the declarations: function set (own + inherited), wrappers, per reachable struct exactly the declared fields (id, name, alias, requiredness, bitmap bit, resolved type structure, default value in Go/Thrift/JSON form); FieldById over 0..65535 (full sweep in 1/8 of the cases, boundary/neighbour sample otherwise) and FieldByKey over a key family must find a field iff declared; the same key family is put to the native lookup through j2t single-member documents; non-trivial = >= 3 struct types reached",
+	Rule: "generated three-file IDLs (main includes inc includes root; defaults naming literals, enum values and constants of the own or an included file incl. constant chains and constant names repeated across files; namespaces, typedefs of scalars/containers/structs and typedef chains across files, enums with negative and large values, unions, exceptions, self- and mutually recursive structs, simple names declared in both files, a low-dispersion struct that forces the hash map, names whose DJB hash is 0, ids up to 32767, aliases, a struct with api.body fields that only occurs as the element of a list argument and result, structs with an api.none field in the roles argument / result / thrown exception (the field is left out of the result's descriptor only), request / response structs with base.Base / base.BaseResp fields of every requiredness (under EnableThriftBase their requires bit is cleared, Required() stays as declared), requiredness, scalar and enum defaults, services with same-file and cross-file inheritance, void/oneway/throws) x parse options (ParseServiceMode, ServiceName, MapFieldWay, ParseEnumAsInt64, SetOptionalBitmap, UseDefaultValue, ParseFunctionMode, ApiBodyFastPath, EnableThriftBase); oracle = the generator's own model of the declarations: function set (own + inherited), wrappers, per reachable struct exactly the declared fields (id, name, alias, requiredness, bitmap bit, resolved type structure, default value in Go/Thrift/JSON form); FieldById over 0..65535 (full sweep in 1/8 of the cases, boundary/neighbour sample otherwise) and FieldByKey over a key family must find a field iff declared; the same key family is put to the native lookup through j2t single-member documents; non-trivial = >= 3 struct types reached",
 	Gen: func(t *rapid.T) Case {
 		m := GenModel(t)
 		var o Opts
